@@ -1,5 +1,5 @@
 """C01-C04 share one harness template; SECTION selects the operators a check exercises."""
-import random
+import os, random
 
 CT = {'i8': 'std::int8_t', 'u8': 'std::uint8_t', 'i16': 'std::int16_t', 'u16': 'std::uint16_t',
       'i32': 'std::int32_t', 'u32': 'std::uint32_t', 'i64': 'std::int64_t', 'u64': 'std::uint64_t',
@@ -23,6 +23,9 @@ def instantiable(a, e1, b, e2, rx, section):
         # conversion scales the source by e1-e2 (source type's power)
         ok = (abs(e1 - e2) < digits(a)) if rx == 2 else (rx ** abs(e1 - e2) < 2 ** digits(a))
     return ok
+
+
+ECT = {k: v for k, v in CT.items() if k not in ('i128', 'u128')}
 
 
 def grid(tier, seed, section):
@@ -69,6 +72,23 @@ def tus(tier, seed, section=None):
         body += '}\n'
         comp = 'clang++' if (tier == 'thorough' and (i // per) % 4 == 3) else 'g++'
         res.append(dict(name='%s_%d' % (section, i // per), src=body, compiler=comp))
+    if section in ('C01', 'C03'):
+        # representation = CNL integer wrapper: scaled_integer over elastic_integer (lines of the C05 table,
+        # exact-value oracle), including unsigned narrowest types filled to their full width
+        ehdr = os.path.join(os.path.dirname(os.path.abspath(hdr)), 'C05.h')
+        rnd = random.Random(seed * 41 + 11)
+        es = [(8, 'u8', -3, 8, 'u8', 2), (16, 'u16', 0, 7, 'i8', -5), (32, 'u32', -8, 32, 'u32', -8), (63, 'i64', -10, 20, 'i32', 3), (64, 'u64', 4, 10, 'u8', 0)]
+        for _ in range(2 if tier == 'quick' else 14):
+            dl, dr = rnd.choice([4, 8, 16, 24, 31, 32, 40]), rnd.choice([4, 8, 16, 24, 31, 32, 40])
+            el, er = rnd.randint(-30, 30), rnd.randint(-30, 30)
+            if dl + dr + abs(el - er) <= 120:
+                es.append((dl, rnd.choice(list(ECT)), el, dr, rnd.choice(list(ECT)), er))
+        for i in range(0, len(es), 3):
+            body = '%s#include "%s"\nint main(){ install(); Rng rng(seed_from_env()+6000+%d);\n' % ('#define VH_SCMP_ONLY 1\n' if section == 'C03' else '', ehdr, i)
+            for (dl, nl, el, dr, nr, er) in es[i:i + 3]:
+                body += '  sbin<%d, %s, %d, %d, %s, %d>(rng);\n' % (dl, ECT[nl], el, dr, ECT[nr], er)
+            body += '}\n'
+            res.append(dict(name='%s_elastic_%d' % (section, i // 3), src=body, compiler='g++'))
     return res
 
 
